@@ -1319,6 +1319,145 @@ def run_cm_history(table, ops, via_platform=False):
 
 
 # ------------------------------------------------------------------------------------------------------------
+# CSR banks through the real SoC(...).finalize(): page capacity and bank address ranges
+_SIM_IO = [("sys_clk", 0, GP.Pins(1)), ("sys_rst", 0, GP.Pins(1))]
+
+
+def banks_nsimple(csr_dw, regs):
+    """Simple CSRs of a bank, from the registers we created (never from the built bank)."""
+    return sum(((w + csr_dw - 1) // csr_dw) * n for w, n in regs)
+
+
+def banks_line(inp):
+    parts = ["banks %d %d %d %d" % (inp["csr_dw"], inp["csr_aw"], inp["paging"], inp["base"]) +
+             "".join(" %d:%d" % (k, loc) for k, loc, _ in inp["banks"] if loc is not None)]
+    for k, loc, regs in inp["banks"]:
+        parts.append("B %d %s" % (k, " ".join("%dx%d" % (w, n) for w, n in regs)))
+    return " ; ".join(parts)
+
+
+def build_banks_soc(inp):
+    import io
+    from litex.gen import LiteXModule
+    from litex.build.sim import SimPlatform
+    from litex.soc.integration.soc_core import SoCMini
+    from litex.soc.interconnect.csr import CSRStorage, CSRStatus
+    cls = type("C13SoC", (SoCMini,), {"mem_map": {"csr": inp["base"]}})
+    with contextlib.redirect_stdout(io.StringIO()):
+        soc = cls(SimPlatform("SIM", _SIM_IO), clk_freq=int(1e6), csr_data_width=inp["csr_dw"],
+                  csr_address_width=inp["csr_aw"], csr_paging=inp["paging"], with_ctrl=False)
+        for k, loc, regs in inp["banks"]:
+            if loc is not None:
+                soc.add_csr("b%d" % k, loc)            # fixed page, the SoC-level way
+        for k, loc, regs in inp["banks"]:
+            m = LiteXModule()
+            j = 0
+            for w, n in regs:
+                for _ in range(n):
+                    setattr(m, "_r%d" % j, (CSRStorage if j % 3 else CSRStatus)(w, name="r%d" % j))
+                    j += 1
+            setattr(soc, "b%d" % k, m)
+        soc.finalize()
+    return soc
+
+
+def banks_oracle(inp, soc):
+    """After a successful finalize: every bank has a page inside the CSR space, its simple CSRs (4 bytes each,
+    counted from the registers we created) fit in that page, and no two banks' byte ranges intersect."""
+    paging, base, D = inp["paging"], inp["base"], inp["csr_dw"]
+    n_locs = 4 * 2 ** inp["csr_aw"] // paging
+    ranges = []
+    for k, loc, regs in inp["banks"]:
+        name = "b%d" % k
+        reg = soc.csr.regions.get(name)
+        if reg is None:
+            return "bank %s has no CSR region after finalize" % name
+        off = reg.origin - base
+        page = off // paging
+        if off % paging or not (0 <= page < n_locs):
+            return "bank %s is at 0x%x: not a page of the CSR space (base 0x%x, %d pages of 0x%x)" % (
+                name, reg.origin, base, n_locs, paging)
+        if loc is not None and page != loc:
+            return "bank %s was given page %d and is at page %d" % (name, loc, page)
+        ns = banks_nsimple(D, regs)
+        if 4 * ns > paging:
+            return "bank %s holds %d simple CSRs (0x%x bytes) in a page of 0x%x bytes: it spills into page %d" % (
+                name, ns, 4 * ns, paging, page + 1)
+        ranges.append((reg.origin, reg.origin + 4 * ns, name))
+    ranges.sort()
+    for (a0, a1, n0), (b0, b1, n1) in zip(ranges, ranges[1:]):
+        if b0 < a1:
+            return "banks %s [0x%x,0x%x) and %s [0x%x,0x%x) intersect" % (n0, a0, a1, n1, b0, b1)
+    return None
+
+
+def run_banks_case(inp, known=()):
+    alarm = None
+    try:
+        with time_limit(HISTORY_TIME_LIMIT):
+            soc = build_banks_soc(inp)
+        got = []
+        for name, csrs, mapaddr, rmap in soc.csr_bankarray.banks:
+            got.append("%d:%d:%d:%d" % (int(name[1:]), mapaddr, len(rmap.simple_csrs), soc.csr.regions[name].origin))
+        result = "ok # " + " ".join(got)
+        alarm = banks_oracle(inp, soc)
+        for name, csrs, mapaddr, rmap in soc.csr_bankarray.banks:
+            want = banks_nsimple(inp["csr_dw"], dict((k, r) for k, _, r in inp["banks"])[int(name[1:])])
+            if alarm is None and len(rmap.simple_csrs) != want:
+                alarm = "bank %s was built with %d simple CSRs, its registers need %d" % (name, len(rmap.simple_csrs), want)
+    except SoCError:
+        envshim.quiet_stderr()
+        result = "rej"
+    except Exception as e:
+        envshim.quiet_stderr()
+        result = "crash:" + type(e).__name__
+        alarm = "SoC build/finalize raised %s: %s" % (type(e).__name__, str(e)[:200])
+    return {"result": result, "alarm": alarm, "nontrivial": int(result.startswith("ok"))}
+
+
+def gen_banks_case(rng):
+    D = rng.choice([8, 32])
+    paging = rng.choice([0x400, 0x400, 0x800, 0x800, 0x1000])
+    aw = rng.choice([14, 14, 15])
+    base = rng.choice([0, 0x10000 * 4, 0xf0000000])
+    cap = paging // 4
+    nb = rng.randint(1, 4)
+    ks = sorted(rng.sample(range(10), nb))
+    big = rng.choice(ks)
+    n_locs = 4 * 2 ** aw // paging
+    banks = []
+    for k in ks:
+        if k == big and rng.random() < 0.85:
+            target = rng.choice([cap - 1, cap, cap + 1, 2 * cap, cap, cap + 1, cap - 3, cap + 4, cap // 2])
+        else:
+            target = rng.randint(1, 6)
+        regs = []
+        if D == 8:
+            wide = rng.choice([32, 32, 16, 64])
+            per = (wide + 7) // 8
+            n_wide = target // per if rng.random() < 0.8 else rng.randint(0, target // per)
+            if n_wide:
+                regs.append([wide, n_wide])
+            rest = target - n_wide * per
+            if rest > 0:
+                regs.append([rng.choice([8, 1, 5]), rest])
+        else:
+            n64 = rng.randint(0, min(3, target // 2)) if rng.random() < 0.3 else 0
+            if n64:
+                regs.append([64, n64])
+            rest = target - 2 * n64
+            if rest > 0:
+                regs.append([rng.choice([32, 32, 8, 1, 17]), rest])
+        if not regs:
+            regs = [[8, 1]]
+        loc = None
+        if rng.random() < 0.35:
+            loc = rng.choice([0, 1, 2, n_locs - 1, n_locs, rng.randrange(0, 8)])
+        banks.append([k, loc, regs])
+    return {"kind": "banks", "csr_dw": D, "csr_aw": aw, "paging": paging, "base": base, "banks": banks}
+
+
+# ------------------------------------------------------------------------------------------------------------
 # chunk worker (one process handles one chunk of histories of one kind)
 def work_chunk(args):
     kind, seed, count, known = args
@@ -1374,6 +1513,11 @@ def _one_history(kind, rng, known, out):
                         "input": {"kind": "cm", "plat": plat, "table": [list(e) for e in table],
                                   "ops": [list(o) for o in ops]},
                         "nontrivial": res["nontrivial"], "nops": len(ops)})
+        elif kind == "banks":
+            inp = gen_banks_case(rng)
+            res = run_banks_case(inp, known)
+            out.append({"kind": "banks", "line": banks_line(inp), "real": res["result"], "alarm": res["alarm"],
+                        "input": inp, "nontrivial": res["nontrivial"], "nops": len(inp["banks"])})
         elif kind == "dec":
             line, (aw, dw, o, sz, decode, addrs) = gen_decoder_case(rng)
             bits = real_decoder_bits(aw, dw, o, sz, decode, addrs)
@@ -1402,6 +1546,9 @@ def rerun_input(inp, known=()):
                for o in inp["ops"]]
         res = run_cm_history(table, ops, inp.get("plat", 0))
         return cm_line(table, ops), res["result"], res["alarm"], res
+    if k == "banks":
+        res = run_banks_case(inp, known)
+        return banks_line(inp), res["result"], res["alarm"], res
     if k == "dec":
         aw, dw, o, sz, d = inp["aw"], inp["dw"], inp["origin"], inp["size"], inp["decode"]
         sh = (dw // 8).bit_length() - 1
